@@ -145,4 +145,10 @@ func init() {
 		NotDecided:  "equality of values across modes; partial population of the scratch message before a lenient error",
 		Rules:       []func(*World){rh8Lenience, rc7LenientCommit},
 	})
+	register(&Property{
+		ID:          "C23",
+		Explanation: "RX: sourceCodeInfo.locs is appended only by the three newLoc* primitives, each appending exactly one location (unconditional, no early return) whose Path is a copy of the path parameter and whose Span is makeSpan of the node's start/end; extraComments is read only in newLoc (both arms produce one location for the same path) and maybeDonate (creates none); extraOptionLocs only gates generateSourceInfoForOptionChildren in generateSourceCodeInfoForOption. RX4: in every `append(path, tags.T, idx)` the index variable serves a single tag (no index-space confusion) and is incremented after use in the same block.",
+		NotDecided:  "that each tag sequence is a valid path of the descriptor; span ranges; comment text",
+		Rules:       []func(*World){rxSourceInfo},
+	})
 }
